@@ -443,9 +443,100 @@ func TestVerifC15(t *testing.T) {
 	if c04DBDigest(side) != primaryBefore {
 		rep.Violate("C15/outage/primary-changed", "the primary store changed during the outage window", nil)
 	}
+	c15SelfService(rep)
 	rep.Floor("roundtrips_ok", 30)
 	rep.Floor("mirror_syncs_equal", 30)
 	rep.Floor("fault_injections", 40)
 	rep.Floor("outage_auth_ok", 3)
 	rep.Floor("outage_mutations_checked", 14)
+	rep.Floor("selfservice_live", 1)
+	rep.Floor("outage_selfservice_logins_checked", 2)
+}
+
+// c15SelfService: a password login is itself a profile-changing operation when self-service Bootstrap OTPs are
+// enabled (a user without second factor gets an OTP stored and mailed).  With the primary reachable this must work
+// (positive control, so the scenario is known to be live); during an outage the login continues from the cache but
+// must not attempt the profile write.  The operator's mail relay is a fake SMTP server named in the configuration.
+func c15SelfService(rep *verifReport) {
+	smtp, err := newVerifFakeSMTP()
+	if err != nil {
+		rep.Inconc("self-service: smtp: %v", err)
+		return
+	}
+	defer smtp.L.Close()
+	env, err := verifNewEnv(verifStateOpts{Name: "c15-selfservice", AllowedCerts: []string{"U2F", "TOTP"}, AllowedWebUI: []string{"password"}, AdminUsers: []string{"root1"},
+		EnableTOTP: true, EnableBootstrap: true, Users: map[string]string{"x": "y"},
+		ExtraBase: "    allow_self_service_bootstrap_otp: true\n",
+		ExtraTop:  fmt.Sprintf("email:\n    domain: \"mail.example.com\"\n    smtp_server: %q\n", smtp.Addr())})
+	if err != nil {
+		rep.Inconc("self-service env: %v", err)
+		return
+	}
+	env.SetPasswordChecker(verifPWFunc(func(u string, p []byte) (bool, error) { return string(p) == "pw-"+u, nil }))
+	pl, _, err := env.HookDBs()
+	if err != nil {
+		rep.Inconc("self-service: hook: %v", err)
+		return
+	}
+	side, _ := sql.Open("sqlite3", env.PrimaryDBPath())
+	defer side.Close()
+	// positive control with the primary reachable
+	ckA, rA := verifLogin(env, "ssa", "pw-ssa")
+	vA := env.ProfileView("ssa")
+	rep.Eval(fmt.Sprintf("selfservice|online|login=%d|mails=%d|otp-stored=%v", rA.Code, smtp.Count(), vA.BootstrapOTP))
+	if ckA != "" && smtp.Count() >= 1 && vA.BootstrapOTP {
+		rep.Count("selfservice_live", 1)
+	} else {
+		rep.Obs("self-service bootstrap OTP not observed online (login=%d mails=%d stored=%v)", rA.Code, smtp.Count(), vA.BootstrapOTP)
+	}
+	rootCk, _ := verifLogin(env, "root1", "pw-root1")
+	verifAdminAddUser(env, rootCk, "ssc") // profile exists, no second factor, no OTP
+	env.SyncCache()
+	gate := newVerifOutage()
+	verifSQL.SetHook(pl, gate.Hook)
+	before := c04DBDigest(side)
+	env.SetOutage(gate, true)
+	for _, u := range []string{"ssb", "ssc", "ssb"} { // ssb has never been seen: the cache answers with an empty profile
+		gate.mu.Lock()
+		gate.Writes = nil
+		gate.mu.Unlock()
+		m0 := smtp.Count()
+		type res struct {
+			ck string
+			r  *verifResp
+		}
+		done := make(chan res, 1)
+		go func() { ck, r := verifLogin(env, u, "pw-"+u); done <- res{ck, r} }()
+		var got res
+		select {
+		case got = <-done:
+		case <-time.After(20 * time.Second):
+			rep.Inconc("self-service: login of %s did not answer within 20 s during the outage", u)
+			continue
+		}
+		writes := gate.WriteAttempts()
+		var ws []string
+		for _, w := range writes {
+			ws = append(ws, w.Kind+":"+w.Text)
+		}
+		rep.Eval(fmt.Sprintf("outage|selfservice-login|%d|writes=%d|mails=%d", got.r.Code, len(writes), smtp.Count()-m0))
+		rep.Count("outage_selfservice_logins_checked", 1)
+		c := map[string]interface{}{"user": u, "status": got.r.Code, "write_attempts_on_primary": ws, "mails_sent": smtp.Count() - m0}
+		switch {
+		case got.ck == "":
+			rep.Violate("C15/outage/login-refused/self-service", "password login does not work while the primary store is unreachable", c)
+		case len(writes) > 0:
+			rep.Violate("C15/outage/write-attempted/login-self-service-otp", "a login served from the cache went on to store a self-service Bootstrap OTP in the primary (a profile change during the outage, from a stale copy)", c)
+		default:
+			rep.Sample("outage-selfservice-login", 1, c)
+			if smtp.Count() != m0 {
+				rep.Obs("a Bootstrap OTP mail was sent during the outage although nothing was stored (user %s)", u)
+			}
+		}
+	}
+	env.SetOutage(gate, false)
+	verifSQL.SetHook(pl, nil)
+	if c04DBDigest(side) != before {
+		rep.Violate("C15/outage/primary-changed/self-service", "the primary store changed during the outage window", nil)
+	}
 }
